@@ -65,5 +65,18 @@ CtxScripts ==
       su \in { <<>>, <<CSetKeyOp("HS256", 0)>> },
       p \in { <<CbRet(1)>>, <<CbRet(-1)>>, <<CbKey(1), CbAlg("HS512")>>, <<CbKey(0), CbAlg("HS256")>>, <<StepDel("clm", NONE), CbRet(1)>> },
       ctx \in { <<CSetCbCtxOp>>, <<CSetCbCtxOp, CSetCbCtxOp>>, <<CSetCbOff, CSetCbCtxOp>> }, t \in {TK1, TK2} }
+\* stage 'faults': every allocation request made inside jwt_checker_verify fails once, on checkers whose callback
+\* rewrites the very claim the token fails on: also when memory runs short the verdict is about the claims that
+\* were signed
+FaultScripts ==
+  { <<LoadOp(<<KOct, KOct2>>), CNewOp, CSetKeyOp("HS256", 0)>> \o cf \o <<CSetCbOp(pt[1]), VerifyOpX(Tok("HS256", <<>>, pt[2], Sig("valid", "HS256", KOct)), 0, 1)>> :
+      cf \in { <<>>, <<CClaimSetOp("iss", "me")>> },
+      pt \in { << <<StepSet("clm", Val("int", "exp", FutW, 1))>>, <<IntM("exp", PastW)>> >>,
+               << <<StepDel("clm", "exp")>>, <<IntM("exp", PastW)>> >>,
+               << <<StepSet("clm", Val("int", "nbf", PastW, 1))>>, <<IntM("nbf", FutW)>> >>,
+               << <<StepSet("clm", Val("str", "iss", "me", 1))>>, <<StrM("iss", "you"), IntM("exp", PastW)>> >>,
+               << <<StepDel("clm", NONE)>>, <<IntM("exp", PastW), StrM("iss", "you")>> >>,
+               << <<StepSet("clm", Val("str", "aud", "x", 0))>>, <<IntM("exp", FutW)>> >> } }
+MCSpecFault == ISpecP(script \in FaultScripts)
 MCSpec == ISpecP(InFam(C19Fam) \/ script \in RelabelScripts \/ script \in SeqScripts \/ script \in CtxScripts)
 =============================================================================
